@@ -42,6 +42,10 @@ class DaliServer:
             s = socket.create_connection(self._target)
 
         assert isinstance(command, Command)
+        if len(command.frame) != 16:
+            raise ValueError(
+                "daliserver only carries 16-bit frames, not {}".format(
+                    len(command.frame)))
         message = struct.pack("BB", 2, 0) + command.frame.pack
 
         logging.info("command: {}{}".format(
